@@ -23,6 +23,8 @@ CLAIM = (
     "it unless a parent's definition does; the choice definition offers the class itself and every concrete descendant; (7) FLD: which "
     "fields of Constraints are consumed; (8) STACK-ORDER: the passes that in-line the constraints of ancestors and of constrained-primitive "
     "chains visit parents before children (a child processed first loses the grandparent's constraints)."
+    " SKIPS: the loops of the functions in scope have no more `continue`, `break` or in-loop `return` statements than the reference "
+    "read on the unchanged tree (baselines/skips.json): a new skip means elements that were handled are no longer handled."
 )
 NOTE = (
     "Oracle: base64 text length 4*ceil(n/3). Documented exclusions (by design of the generator, stated in the property): tightenings "
@@ -60,6 +62,13 @@ def run(ctx) -> None:
         if m.name.startswith(f"{PKG}.infer_for_schema"):
             for f in m.functions.values():
                 stack.check_stack_order(ctx, f, "STACK-ORDER")
+    ctx.rule("SKIPS", "the loops of the functions in scope have no more continue/break/return-in-loop statements than the reference read on the unchanged tree", floor=5)
+    from ..rules import skips as _skips
+    _base = _skips.load_baseline()
+    for _m in ctx.p.modules.values():
+        if _m.name == "aas_core_codegen.jsonschema.main" or _m.name.startswith("aas_core_codegen.infer_for_schema"):
+            for _f in _m.functions.values():
+                _skips.check_skips(ctx, _f, "SKIPS", _base)
 
 
 def _source_guard_ok(guards, attr: str) -> Tuple[bool, str]:
